@@ -9,6 +9,7 @@ from streamflow.core import utils as sfu
 from streamflow.core.data import DataType
 from streamflow.core.deployment import ExecutionLocation
 from streamflow.deployment.connector.local import LocalConnector
+from streamflow.deployment.wrapper import ConnectorWrapper
 
 import logging
 
@@ -20,11 +21,19 @@ from sfv.rt.trees import diff, make_tree, rand_name, resolved, snapshot
 from sfv.translate import cmdtmpl
 
 SAFE = set("abcdefghijklmnopqrstuvwxyzABCDEFGHIJKLMNOPQRSTUVWXYZ0123456789_@%+=:,./-")
-KINDS = ["local", "remA0", "remA1", "remB0"]
+KINDS = ["local", "remA0", "remA1", "remB0", "wrapA0", "wrapM0"]
 
 
 def is_safe(s: str) -> bool:
     return bool(s) and all(c in SAFE for c in s)
+
+
+class WrapMini(ConnectorWrapper):
+    """a wrapping deployment (like a container or queue manager on top of a remote host) over a MiniConnector"""
+
+    @classmethod
+    def get_schema(cls) -> str:
+        return "{}"
 
 
 def tame_name(rng) -> str:
@@ -70,9 +79,12 @@ class C22(Property):
         self.n = 0
         self.table = cmdtmpl.table(os.environ.get("SFV_REPO", "/repo"))
 
-    def location(self, kind: str) -> ExecutionLocation:
+    def location(self, kind: str, mounts: dict | None = None) -> ExecutionLocation:
         if kind == "local":
             return ExecutionLocation(name="__LOCAL__", deployment="__LOCAL__", local=True)
+        if kind.startswith("wrap"):
+            inner = ExecutionLocation(name="loc0", deployment="remA", local=False)
+            return ExecutionLocation(name="w0", deployment="wrapA", local=False, wraps=inner, mounts=mounts if kind == "wrapM0" else None)
         dep = "remA" if kind.startswith("remA") else "remB"
         return ExecutionLocation(name="loc" + kind[-1], deployment=dep, local=False)
 
@@ -93,15 +105,25 @@ class C22(Property):
                 f.write(rng.randbytes(case.get("big") or rng.choice([0, 1, 700, 5000])))
             if rng.random() < 0.5:
                 os.chmod(src, 0o755)
-        dst = os.path.join(dst_root, case["dst_name"])
+        # a wrapped location with a mount: the outer path `MO/…` is the inner path `D/…` (a symlink plays the bind mount)
+        mounts = None
+        if case["dst_kind"] == "wrapM0":
+            outer = os.path.join(base, "MO")
+            os.symlink(dst_root, outer)
+            mounts = {outer: dst_root}
+            dst_root_seen = outer
+        else:
+            dst_root_seen = dst_root
+        dst = os.path.join(dst_root_seen, case["dst_name"])
         if case["dst_exists_dir"]:
             os.makedirs(dst)
         want = resolved(snapshot(src), src)
         context = make_context(base)
         conns = {"__LOCAL__": LocalConnector("__LOCAL__", base), "remA": MiniConnector("remA", locations=("loc0", "loc1")), "remB": MiniConnector("remB")}
+        conns["wrapA"] = WrapMini("wrapA", base, conns["remA"], None, 2 ** 16)
         for k, v in conns.items():
             context.deployment_manager.deployments_map[k] = v
-        sloc, dloc = self.location(case["src_kind"]), self.location(case["dst_kind"])
+        sloc, dloc = self.location(case["src_kind"]), self.location(case["dst_kind"], mounts)
         obs = {"src": src, "dst": dst}
 
         async def go():
@@ -131,6 +153,8 @@ class C22(Property):
         obs["entries"] = len(want)
         obs["dst_root_listing"] = sorted(os.listdir(dst_root))[:6] + ([sorted(os.listdir(dst))[:6]] if os.path.isdir(dst) else [])
         obs["cmds"] = [(k, " ".join(c)) for conn in (conns["remA"], conns["remB"]) for k, c in conn.commands][:12]
+        if mounts:
+            obs["mounts"] = mounts
         # registration
         try:
             locs = context.data_manager.get_data_locations(path=final, deployment=dloc.deployment, location_name=dloc.name)
@@ -153,6 +177,7 @@ class C22(Property):
             route += ":same-location"
         elif case["src_kind"][:4] == case["dst_kind"][:4] and case["src_kind"] != "local":
             route += ":same-connector"
+        route = route.replace("wrapM", "wrapped+mount").replace("wrapA", "wrapped")
         flags = ("rw" if case["writable"] else "ro") + (",dst-is-dir" if case["dst_exists_dir"] else "") + (",dir" if case["src_is_dir"] else ",file")
         nasty_src, nasty_dst = not is_safe(obs["src"]), not is_safe(obs["dst"])
         regime = "tame-top" if not (nasty_src or nasty_dst) else "nasty-top"
